@@ -1229,8 +1229,12 @@ class Database:
                     i
                     for i, (ancestor, loc) in enumerate(zip(ancestors, lLocation))
                     if ancestor == anchorSerialNum and loc in locations
-                ]
+                ],
+                dtype=int,
             )
+            if len(objectIndicesInLayout) == 0:
+                # none of the requested locations is occupied at this time step
+                continue
 
             # This could also be way more efficient if lLocation were a numpy array
             objectLocationsInLayout = [lLocation[i] for i in objectIndicesInLayout]
